@@ -107,6 +107,7 @@ func runC02(c *Ctx) {
 	// first the cases that run in a child process: a server that panics there is an oracle failure with its input, whereas a
 	// panic in the in-process kinds below takes the whole family down
 	c02OpenRaces(c)
+	c02MaxFrames(c)
 	mispred, rounds := 0, 0
 	illegal := map[string]int{}
 	stalled := 0 // failing cases that ran into the 10 s limit: a server that stops answering is reported, not waited for 600 times
